@@ -323,6 +323,11 @@ def guard_atoms(repo: Repo, f: Func, cfg: CFG):
         e = c.ast
         if isinstance(e, ast.NamedExpr):
             e = e.value
+        if isinstance(e, ast.Name):
+            # `env_var = is_ci_run()` ... `if env_var:` - the answer of a detector held in a local
+            e2 = resolve_alias(cfg, c, e)
+            if isinstance(e2, ast.Call):
+                e = e2
         if isinstance(e, ast.Call):
             tg, _ = cg.call_targets(f, e)
             roles = {detector_role(t) for t in tg}
